@@ -37,15 +37,253 @@ def sym_tokens(key, n, alphabet, labels):
     return cells
 
 
+# ---------------------------------------------------------------------------
+# structured lazy tokens (item front end): Tk::{End, Ident(name), Punct(text), Group(delim, cells), Lit(text)} whose parts
+# are themselves lazily chosen, so that a scan that only asks "brace group or `;`?" does not enumerate identifiers
+# ---------------------------------------------------------------------------
+
+ITEM_IDENTS = ['fn', 'pub', 'unsafe', 'auto', 'const', 'async', 'extern', 'trait', 'impl', 'mod', 'struct', 'use', 'f0', 'X']
+ITEM_PUNCTS = [';', '#', '->', '!']
+PAREN_GROUPS = {
+    '()': [],
+    '(deps: &impl B0)': [('I', 'deps'), ('P', ':'), ('P', '&'), ('I', 'impl'), ('I', 'B0')],
+    '(deps: &impl B0, p1: u32)': [('I', 'deps'), ('P', ':'), ('P', '&'), ('I', 'impl'), ('I', 'B0'), ('P', ','), ('I', 'p1'), ('P', ':'), ('I', 'u32')],
+    '(crate)': [('I', 'crate')],
+}
+BRACE_GROUPS = {
+    '{}': [],
+    '{ fn inner() {} }': [('I', 'fn'), ('I', 'inner'), ('G', '(', []), ('G', '{', [])],
+}
+BRACKET_GROUPS = {
+    '[inline]': [('I', 'inline')],
+    '[cfg(any())]': [('I', 'cfg'), ('G', '(', [('I', 'any'), ('G', '(', [])])],
+}
+
+
+def sym_text(ex, key, alphabet):
+    """a token text as a solver string ranging over the alphabet: the exploration forks only on the comparisons made"""
+    v = z3.String('tk:' + key)
+    seen = ex.notes.setdefault('tk_vars', {})
+    if key not in seen:
+        seen[key] = (v, alphabet)
+        ex.assume(z3.Or([v == z3.StringVal(a) for a in alphabet]))
+    return v
+
+
+def text_is(ex, term, lit):
+    """does the (possibly symbolic) token text equal `lit`? forks when undetermined; remembers what was learned"""
+    if isinstance(term, str):
+        return term == lit
+    known = ex.notes.setdefault('tk_known', {})
+    k = str(term)
+    if k in known:
+        return known[k] == lit
+    r = ex.branch(term == z3.StringVal(lit), f'{k}=={lit}')
+    if r:
+        known[k] = lit
+    return r
+
+
+def text_in(ex, term, lits):
+    if isinstance(term, str):
+        return term in lits
+    known = ex.notes.setdefault('tk_known', {})
+    k = str(term)
+    if k in known:
+        return known[k] in lits
+    _v, alphabet = ex.notes['tk_vars'][k[3:]]
+    cands = [l for l in lits if l in alphabet]
+    if not cands:
+        return False
+    return ex.branch(z3.Or([term == z3.StringVal(l) for l in cands]), f'{k} in {sorted(cands)[:3]}..')
+
+
+def text_known(ex, term):
+    if isinstance(term, str):
+        return term
+    return ex.notes.get('tk_known', {}).get(str(term), term)
+
+
+def sym_item_token(key):
+    def ident(ex):
+        return Obj('Tk', 'Ident', [sym_text(ex, key + '.id', ITEM_IDENTS)])
+
+    def punct(ex):
+        return Obj('Tk', 'Punct', [sym_text(ex, key + '.p', ITEM_PUNCTS)])
+
+    def group(ex):
+        def delim(ex2, i):
+            d = ['{', '(', '['][i]
+            table = {'{': BRACE_GROUPS, '(': PAREN_GROUPS, '[': BRACKET_GROUPS}[d]
+            labels = list(table)
+            return Obj('tuple', None, [d, Sym(key + '.g.c', len(labels), lambda ex3, j: table[labels[j]], labels)])
+        return Obj('Tk', 'Group', [Sym(key + '.g', 3, delim, ['{', '(', '['])])
+
+    return Sym(key, 5, lambda ex, i: [lambda e: Obj('Tk', 'End', []), ident, punct, group, lambda e: Obj('Tk', 'Lit', ['"C"'])][i](ex),
+               ['END', 'ident', 'punct', 'group', 'literal'])
+
+
+def sym_item_tokens(key, n):
+    return [sym_item_token(f'{key}[{i}]') for i in range(n)]
+
+
+def tk_is_end(t):
+    return t == END or (isinstance(t, Obj) and t.ty == 'Tk' and t.variant == 'End')
+
+
+def tk_ident(ex, t):
+    """identifier text (str or solver term) or None"""
+    if isinstance(t, tuple):
+        return t[1] if t[0] == 'I' else None
+    if t.variant == 'Ident':
+        return text_known(ex, t.fields[0])
+    return None
+
+
+def tk_punct(ex, t):
+    if isinstance(t, tuple):
+        return t[1] if t[0] == 'P' else None
+    if t.variant == 'Punct':
+        return text_known(ex, t.fields[0])
+    return None
+
+
+def ident_is(ex, t, lit):
+    n = tk_ident(ex, t) if t != END else None
+    return n is not None and text_is(ex, n, lit)
+
+
+def punct_is(ex, t, lit):
+    n = tk_punct(ex, t) if t != END else None
+    return n is not None and text_is(ex, n, lit)
+
+
+def ident_name(ex, t):
+    """non-keyword identifier text, or None"""
+    n = tk_ident(ex, t) if t != END else None
+    if n is None:
+        return None
+    if text_in(ex, n, SYN_KEYWORDS | {'_'}):
+        return None
+    return n
+
+
+def tk_group_delim(ex, t):
+    if isinstance(t, tuple):
+        return t[1] if t[0] == 'G' else None
+    if t.variant == 'Group':
+        g = ex.force_slot(t.fields, 0)
+        return g.fields[0]
+    return None
+
+
+def tk_group_content(ex, t):
+    if isinstance(t, tuple):
+        return list(t[2])
+    g = ex.force_slot(t.fields, 0)
+    return list(ex.force_slot(g.fields, 1))
+
+
+def tk_lit(ex, t):
+    if isinstance(t, tuple):
+        return t[1] if t[0] == 'L' else None
+    return t.fields[0] if t.variant == 'Lit' else None
+
+
+def tk_view(t):
+    """abstract token for output streams: resolved parts as tokens, unresolved parts as atoms"""
+    if isinstance(t, tuple):
+        return view_tok(t)
+    return ('TKN', t)
+
+
+def tk_flat(t, resolve, known=None):
+    """structured token -> view tokens (used by the printer); known: solver term -> learned concrete text"""
+    def r(x):
+        return resolve(x) if isinstance(x, Sym) else x
+    if t.variant == 'Ident':
+        n = known(t.fields[0]) if known else t.fields[0]
+        return [('I', n, 'input')]
+    if t.variant == 'Punct':
+        n = known(t.fields[0]) if known else t.fields[0]
+        return [('P', n, 'input')] if isinstance(n, str) else [('PSYM', n, 'input')]
+    if t.variant == 'Lit':
+        return [('L', t.fields[0], 'input')]
+    if t.variant == 'Group':
+        g = r(t.fields[0])
+        if isinstance(g, Sym):
+            return [('ATOM', g.key, 'input')]
+        c = r(g.fields[1])
+        if isinstance(c, Sym):
+            return [('G', g.fields[0], [('ATOM', c.key, 'input')], 'input')]
+        return [('G', g.fields[0], [view_tok(x) for x in c], 'input')]
+    return []
+
+
+def expand_segments(ex, toks, upto):
+    """segments (lazily chosen runs of 0..n tokens, key prefix `seg:`) are spliced in place, left to right"""
+    j = 0
+    while j <= upto and j < len(toks):
+        t = toks[j]
+        if isinstance(t, Sym) and t.key.startswith('seg:'):
+            run = ex.force(t)
+            toks[j:j + 1] = list(run.fields[0])
+            continue
+        j += 1
+
+
+def seg(key, alts, labels):
+    """alts: list of token lists (tokens may be concrete tuples or further segments)"""
+    return Sym('seg:' + key, len(alts), lambda ex, i: Obj('Seg', None, [list(alts[i])]), labels)
+
+
+def sym_item_segments(key, dims='full'):
+    """one legal item of a module / impl body as a run of segments:
+    attrs? vis? (fn-item | struct X; | use X; | mod X {} | impl X {} | trait X {} | extern "C" {} | X!{})"""
+    I_ = lambda n: ('I', n)
+    fn_name = {'a': 'f0', 'b': 'f1', 'c': 'f2'}.get(key[-1], 'f0')
+    attrs = seg(key + '.attrs', [[], [('P', '#'), ('G', '[', [I_('inline')])], [('P', '#'), ('G', '[', [I_('cfg'), ('G', '(', [I_('any'), ('G', '(', [])])])]],
+                ['no attr', '#[inline]', '#[cfg(any())]'])
+    vis = seg(key + '.vis', [[], [I_('pub')], [I_('pub'), ('G', '(', [I_('crate')])]], ['private', 'pub', 'pub(crate)'])
+    q_const = seg(key + '.const', [[], [I_('const')]], ['', 'const'])
+    q_async = seg(key + '.async', [[], [I_('async')]], ['', 'async'])
+    q_unsafe = seg(key + '.unsafe', [[], [I_('unsafe')]], ['', 'unsafe'])
+    q_abi = seg(key + '.abi', [[], [I_('extern')], [I_('extern'), ('L', '"C"')]], ['', 'extern', 'extern "C"'])
+    params = seg(key + '.params', [[('G', '(', list(PAREN_GROUPS['(deps: &impl B0)']))], [('G', '(', list(PAREN_GROUPS['(deps: &impl B0, p1: u32)']))]], ['(deps)', '(deps, p1)'])
+    ret = seg(key + '.ret', [[], [('P', '->'), I_('u32')]], ['', '-> u32'])
+    term = seg(key + '.term', [[('G', '{', [])], [('P', ';')], [('G', '{', list(BRACE_GROUPS['{ fn inner() {} }']))]], ['{}', ';', '{ fn inner() {} }'])
+    fn_item = [q_const, q_async, q_unsafe, q_abi, I_('fn'), I_(fn_name), params, ret, term]
+    if dims == 'reduced':
+        term2 = seg(key + '.term', [[('G', '{', [])], [('P', ';')]], ['{}', ';'])
+        fn_item = [q_unsafe, I_('fn'), I_(fn_name), ('G', '(', list(PAREN_GROUPS['(deps: &impl B0)'])), term2]
+        kinds = [fn_item, [I_('struct'), I_('X'), ('P', ';')], [I_('impl'), I_('X'), ('G', '{', list(BRACE_GROUPS['{ fn inner() {} }']))],
+                 [I_('X'), ('P', '!'), ('G', '{', [I_('fn'), I_('in_macro'), ('G', '(', []), ('G', '{', [])])]]
+        kind = seg(key + '.kind', kinds, ['fn item', 'struct', 'impl', 'macro invocation'])
+        return [vis, kind]
+    kinds = [fn_item,
+             [I_('struct'), I_('X'), ('P', ';')],
+             [I_('use'), I_('X'), ('P', ';')],
+             [I_('mod'), I_('X'), ('G', '{', list(BRACE_GROUPS['{ fn inner() {} }']))],
+             [I_('impl'), I_('X'), ('G', '{', list(BRACE_GROUPS['{ fn inner() {} }']))],
+             [I_('trait'), I_('X'), ('G', '{', [I_('fn'), I_('tm'), ('G', '(', []), ('P', ';')])],
+             [I_('extern'), ('L', '"C"'), ('G', '{', [I_('fn'), I_('ext'), ('G', '(', []), ('P', ';')])],
+             [I_('X'), ('P', '!'), ('G', '{', [I_('fn'), I_('in_macro'), ('G', '(', []), ('G', '{', [])])]]
+    kind = seg(key + '.kind', kinds, ['fn item', 'struct', 'use', 'mod', 'impl', 'trait', 'extern block', 'macro invocation'])
+    return [attrs, vis, kind]
+
+
 def tok_at(ex, pb, k=0):
     i = pb.pos + k
+    expand_segments(ex, pb.toks, i)
     if i >= len(pb.toks):
         return END
     # END is absorbing: if an earlier position is END so is this one
     for j in range(0, i):
-        if not isinstance(pb.toks[j], Sym) and pb.toks[j] == END:
+        if not isinstance(pb.toks[j], Sym) and tk_is_end(pb.toks[j]):
             return END
     t = ex.force_slot(pb.toks, i)
+    if tk_is_end(t):
+        return END
     return t
 
 
@@ -53,15 +291,15 @@ def span_at(pb, k=0):
     return Span(('input-token', pb.key, pb.pos + k))
 
 
-def is_tok(t, name):
+def is_tok(t, name, ex=None):
     if t == END:
         return False
     if name in ('Paren', 'Brace', 'Bracket'):
-        return t[0] == 'G' and t[1] == {'Paren': '(', 'Brace': '{', 'Bracket': '['}[name]
+        return tk_group_delim(ex, t) == {'Paren': '(', 'Brace': '{', 'Bracket': '['}[name]
     txt = synprint.TOKENS[name]
     if txt[0].isalpha() or txt == '_':
-        return t[0] == 'I' and t[1] == txt
-    return t[0] == 'P' and t[1] == txt
+        return ident_is(ex, t, txt)
+    return punct_is(ex, t, txt)
 
 
 def err(pb, msg, k=0):
@@ -89,7 +327,7 @@ def _peek(ex, c, a):
     name = token_name_from_generics(c.generics)
     if name is None:
         raise Unsupported('peek target ' + c.generics)
-    return is_tok(tok_at(ex, pb), name)
+    return is_tok(tok_at(ex, pb), name, ex)
 
 
 @model('ParseBuffer::is_empty')
@@ -125,7 +363,7 @@ def _la_peek(ex, c, a):
     la = deref(a[0])
     name = token_name_from_generics(c.generics)
     la.fields[1].append(name)
-    return is_tok(tok_at(ex, la.fields[0]), name)
+    return is_tok(tok_at(ex, la.fields[0]), name, ex)
 
 
 @model('Lookahead1::error')
@@ -143,12 +381,12 @@ def parse_visibility(ex, pb):
     """syn::Visibility::parse"""
     A = ex.prog.ast
     t = tok_at(ex, pb)
-    if not is_tok(t, 'Pub'):
+    if not is_tok(t, 'Pub', ex):
         return A.vis_inherited()
     pb.pos += 1
     t2 = tok_at(ex, pb)
-    if t2 != END and t2[0] == 'G' and t2[1] == '(':
-        inner = t2[2]
+    if t2 != END and tk_group_delim(ex, t2) == '(':
+        inner = tk_group_content(ex, t2)
         if len(inner) == 1 and inner[0][0] == 'I' and inner[0][1] in ('crate', 'self', 'super'):
             pb.pos += 1
             return A.vis_restricted([Ident(inner[0][1], Span(('input', 'vis')), 'input')])
@@ -174,7 +412,7 @@ def _pb_parse(ex, c, a):
     t = tok_at(ex, pb)
     # token types
     if short in synprint.TOKENS and short not in ('Type', 'Box', 'Default', 'Macro') or base.startswith('syn::token::'):
-        if is_tok(t, short):
+        if is_tok(t, short, ex):
             sp = span_at(pb)
             pb.pos += 1
             tk = Tok(short, sp)
@@ -183,8 +421,9 @@ def _pb_parse(ex, c, a):
             return Ok(NONE())
         return err(pb, f'expected `{synprint.TOKENS[short]}`')
     if short == 'Ident':
-        if t != END and t[0] == 'I' and t[1] not in SYN_KEYWORDS and t[1] != '_':
-            idn = Ident(t[1], span_at(pb), 'input')
+        nm = ident_name(ex, t)
+        if nm is not None:
+            idn = Ident(nm, span_at(pb), 'input')
             pb.pos += 1
             return Ok(idn)
         return err(pb, 'expected identifier' if t != END else 'unexpected end of input, expected identifier')
@@ -192,17 +431,18 @@ def _pb_parse(ex, c, a):
         return Ok(parse_visibility(ex, pb))
     if short in ('V', 'LitBool'):
         # the only instantiation of parse_eq_value_or_default in the crate is V = syn::LitBool
-        if t != END and t[0] == 'I' and t[1] in ('true', 'false'):
+        if ident_is(ex, t, 'true') or ident_is(ex, t, 'false'):
             sp = span_at(pb)
+            val = ident_is(ex, t, 'true')
             pb.pos += 1
-            return Ok(Obj('LitBool', None, [t[1] == 'true', sp], ['value', 'span']))
+            return Ok(Obj('LitBool', None, [val, sp], ['value', 'span']))
         return err(pb, 'expected boolean literal' if t != END else 'unexpected end of input, expected boolean literal')
     if short == 'TokenStream':
         out = []
         while tok_at(ex, pb) != END:
-            out.append(view_tok(tok_at(ex, pb)))
+            out.append(tk_view(tok_at(ex, pb)))
             pb.pos += 1
-        return Ok(TS([('RAW', 'rest', out)]))
+        return Ok(TS(out if any(o[0] == 'TKN' for o in out) else [('RAW', 'rest', out)]))
     # crate-local Parse impls
     name = ex.prog.ix.methods.get((short, 'Parse', 'parse'))
     if name:
@@ -238,12 +478,12 @@ def parse_outer_attrs(ex, pb):
     attrs = []
     while True:
         t = tok_at(ex, pb)
-        if not (t != END and t[0] == 'P' and t[1] == '#'):
+        if not punct_is(ex, t, '#'):
             break
         t2 = tok_at(ex, pb, 1)
-        if t2 == END or t2[0] != 'G' or t2[1] != '[':
+        if t2 == END or tk_group_delim(ex, t2) != '[':
             return err(pb, 'expected square brackets', 1)
-        inner = t2[2]
+        inner = tk_group_content(ex, t2)
         # `#[ident]` / `#[ident(tokens)]` / `#[path::ident]`
         path_ids = []
         k = 0
@@ -271,10 +511,11 @@ def _parse_group(ex, c, a):
     pb = pb_of(a[0])
     t = tok_at(ex, pb)
     d = '{' if c.method == 'parse_braces' else '('
-    if t != END and t[0] == 'G' and t[1] == d:
+    if t != END and tk_group_delim(ex, t) == d:
         sp = span_at(pb)
         pb.pos += 1
-        content = PBuf(list(t[2]), 0, pb.key + f'.g{pb.pos}')
+        cells = t[2] if isinstance(t, tuple) and len(t) > 2 and isinstance(t[2], list) and t[2] and isinstance(t[2][0], Sym) else None
+        content = PBuf(cells if cells is not None else (t[2] if isinstance(t, tuple) and isinstance(t[2], list) else tk_group_content(ex, t)), 0, pb.key + f'.g{pb.pos}')
         return Ok(Obj('Braces' if d == '{' else 'Parens', None, [Tok('Brace' if d == '{' else 'Paren', sp), content], ['token', 'content']))
     return err(pb, 'expected curly braces' if d == '{' else 'expected parentheses')
 
@@ -305,7 +546,10 @@ def _cursor_tt(ex, c, a):
     t = tok_at(ex, pb)
     if t == END:
         return NONE()
-    if t[0] == 'G':
+    if isinstance(t, Obj):
+        kind = {'Group': 'Group', 'Punct': 'Punct', 'Ident': 'Ident', 'Lit': 'Literal'}[t.variant]
+        tt = Obj('TokenTree', kind, [Obj(kind + 'TT' if kind in ('Ident', 'Literal') else kind, None, [t, tk_view(t)])])
+    elif t[0] == 'G':
         tt = Obj('TokenTree', 'Group', [Obj('Group', None, [t[1], view_tok(t)])])
     elif t[0] == 'P':
         tt = Obj('TokenTree', 'Punct', [Obj('Punct', None, [t[1], view_tok(t)])])
@@ -319,13 +563,23 @@ def _cursor_tt(ex, c, a):
 @model('Group::delimiter')
 def _group_delim(ex, c, a):
     g = deref(a[0])
-    return Obj('Delimiter', {'(': 'Parenthesis', '{': 'Brace', '[': 'Bracket', '': 'None'}[g.fields[0]], [])
+    d = g.fields[0]
+    if isinstance(d, Obj):
+        d = tk_group_delim(ex, d)
+    return Obj('Delimiter', {'(': 'Parenthesis', '{': 'Brace', '[': 'Bracket', '': 'None'}[d], [])
 
 
 @model('Punct::as_char')
 def _punct_as_char(ex, c, a):
     p = deref(a[0])
-    return p.fields[0][0]
+    ch = p.fields[0]
+    if isinstance(ch, Obj):
+        tk = ch
+        ch = tk_punct(ex, tk)
+        if not isinstance(ch, str):
+            # Punct::as_char() of a symbolic punctuation: only ever compared with ';' by entrait
+            return ';' if punct_is(ex, tk, ';') else '\x00'
+    return ch[0]
 
 
 @model('<Cursor as PartialEq>::ne', '<Cursor as PartialEq>::eq')
@@ -348,7 +602,8 @@ def _extend_tt(ex, ts, it):
         if n.variant == 'None':
             return
         tt = n.fields[0]
-        ts.toks.append(('RAW', 'tt', [tt.fields[0].fields[1]]))
+        v = tt.fields[0].fields[1]
+        ts.toks.append(v if v[0] == 'TKN' else ('RAW', 'tt', [v]))
 
 
 # `TokenStream::extend(once(tt))` with TokenTree values
@@ -571,3 +826,229 @@ def ref_parse_attr(target, toks):
             return ('err', 'unexpected token')
         return ('ok', res)
     raise ValueError(target)
+
+
+# ---------------------------------------------------------------------------
+# syn grammar productions entrait calls on items (models over the item alphabet; generic-free signatures)
+# ---------------------------------------------------------------------------
+
+def build_inputs(ex, content):
+    """AST for one of the fixed parameter-list groups"""
+    A = ex.prog.ast
+    flat = [(t[0], t[1]) for t in content]
+    for label, toks in PAREN_GROUPS.items():
+        if flat == [(t[0], t[1]) for t in toks]:
+            if label == '()':
+                return []
+            deps = A.fn_arg_typed(A.pat_ident(Ident('deps', Span(('input', 'p')), 'input')),
+                                  A.type_ref(A.type_impl_trait([A.bound_trait(A.path([Ident('B0', Span(('input', 'p')), 'input')]))])))
+            if label == '(deps: &impl B0)':
+                return [deps]
+            if label == '(deps: &impl B0, p1: u32)':
+                return [deps, A.fn_arg_typed(A.pat_ident(Ident('p1', Span(('input', 'p')), 'input')), A.type_path_ident(Ident('u32', Span(('input', 'p')), 'input')))]
+    return None
+
+
+def parse_abi_opt(ex, pb):
+    A = ex.prog.ast
+    t = tok_at(ex, pb)
+    if ident_is(ex, t, 'extern'):
+        pb.pos += 1
+        t2 = tok_at(ex, pb)
+        name = None
+        if t2 != END and tk_lit(ex, t2) is not None:
+            name = tk_lit(ex, t2)
+            pb.pos += 1
+        return Some(A.node('Abi', name=Some(Obj('LitStr', None, [name])) if name else NONE()))
+    return NONE()
+
+
+def parse_signature(ex, pb):
+    """syn::Signature::parse restricted to: const? async? unsafe? (extern LIT?)? fn IDENT ( params ) (-> IDENT)?"""
+    A = ex.prog.ast
+    flags = {}
+    for kw in ('const', 'async', 'unsafe'):
+        t = tok_at(ex, pb)
+        if ident_is(ex, t, kw):
+            flags[kw] = True
+            pb.pos += 1
+    abi = parse_abi_opt(ex, pb)
+    t = tok_at(ex, pb)
+    if not ident_is(ex, t, 'fn'):
+        return err(pb, 'expected `fn`')
+    pb.pos += 1
+    t = tok_at(ex, pb)
+    nm = ident_name(ex, t)
+    if nm is None:
+        return err(pb, 'expected identifier')
+    ident = Ident(nm, span_at(pb), 'input')
+    pb.pos += 1
+    t = tok_at(ex, pb)
+    if t == END or tk_group_delim(ex, t) != '(':
+        return err(pb, 'expected parentheses')
+    inputs = build_inputs(ex, tk_group_content(ex, t))
+    if inputs is None:
+        raise Unsupported('signature model: parameter list outside the modelled alphabet')
+    pb.pos += 1
+    output = A.return_default()
+    t = tok_at(ex, pb)
+    if punct_is(ex, t, '->'):
+        t2 = tok_at(ex, pb, 1)
+        rn = ident_name(ex, t2)
+        if rn is None:
+            return err(pb, 'expected type', 1)
+        pb.pos += 2
+        output = A.return_type(A.type_path_ident(Ident(rn, Span(('input', 'ret')), 'input')))
+    sig = A.node('Signature', constness=Some(Tok('Const')) if flags.get('const') else NONE(), asyncness=Some(Tok('Async')) if flags.get('async') else NONE(),
+                 unsafety=Some(Tok('Unsafe')) if flags.get('unsafe') else NONE(), abi=abi, ident=ident, generics=A.generics([], None),
+                 inputs=Punct(inputs, 'Comma'), variadic=NONE(), output=output)
+    return Ok(sig)
+
+
+def parse_abi(ex, pb):
+    return Ok(parse_abi_opt(ex, pb))
+
+
+def parse_path(ex, pb):
+    A = ex.prog.ast
+    t = tok_at(ex, pb)
+    nm = ident_name(ex, t)
+    if nm is None:
+        return err(pb, 'expected identifier')
+    pb.pos += 1
+    return Ok(A.path([Ident(nm, span_at(pb), 'input')]))
+
+
+def parse_type(ex, pb):
+    r = parse_path(ex, pb)
+    if r.variant == 'Err':
+        return r
+    return Ok(ex.prog.ast.type_path(r.fields[0]))
+
+
+def parse_item_trait(ex, pb):
+    """`trait IDENT { }` (attrs / vis / unsafe / auto were consumed by the caller and are re-attached by it)"""
+    A = ex.prog.ast
+    t = tok_at(ex, pb)
+    if not ident_is(ex, t, 'trait'):
+        return err(pb, 'expected `trait`')
+    pb.pos += 1
+    t = tok_at(ex, pb)
+    nm = ident_name(ex, t)
+    if nm is None:
+        return err(pb, 'expected identifier')
+    pb.pos += 1
+    t = tok_at(ex, pb)
+    if t == END or tk_group_delim(ex, t) != '{':
+        return err(pb, 'expected curly braces')
+    if tk_group_content(ex, t):
+        raise Unsupported('trait-body model: only an empty body')
+    pb.pos += 1
+    return Ok(A.node('ItemTrait', vis=A.vis_inherited(), unsafety=NONE(), auto_token=NONE(), restriction=NONE(), ident=Ident(nm, Span(('input', 't')), 'input'),
+                     generics=A.generics([], None), colon_token=NONE(), supertraits=Punct([], 'Plus'), items=VecObj([])))
+
+
+ITEM_PARSERS.update({'Signature': parse_signature, 'Abi': parse_abi, 'Path': parse_path, 'Type': parse_type, 'ItemTrait': parse_item_trait})
+
+
+# ---------------------------------------------------------------------------
+# reference classification of module / impl bodies (C08, C02): written from the property text, over the same lazy tokens
+# ---------------------------------------------------------------------------
+
+def ref_items(ex, cells, pub_only=True):
+    """-> ('ok', [(kind, name|None, start, end)]) | ('err', why) | ('unspecified', why: the tokens are not legal Rust items, so
+    rustc never hands them to the macro).  kind: 'fn' (becomes a trait method) | 'other'"""
+    pb = PBuf(cells, 0, 'ref')
+    items = []
+    while tok_at(ex, pb) != END:
+        start = pb.pos
+        while punct_is(ex, tok_at(ex, pb), '#'):
+            t2 = tok_at(ex, pb, 1)
+            if t2 == END or tk_group_delim(ex, t2) != '[':
+                return ('unspecified', 'malformed attribute')
+            pb.pos += 2
+        vis = False
+        t = tok_at(ex, pb)
+        if ident_is(ex, t, 'pub'):
+            vis = True
+            pb.pos += 1
+            t2 = tok_at(ex, pb)
+            if t2 != END and tk_group_delim(ex, t2) == '(':
+                c = tk_group_content(ex, t2)
+                if len(c) == 1 and c[0][0] == 'I' and c[0][1] in ('crate', 'self', 'super'):
+                    pb.pos += 1
+                else:
+                    return ('unspecified', 'pub followed by a group that is not a visibility restriction')
+        save = pb.pos
+        k = 0
+        for kw in ('const', 'async', 'unsafe'):
+            if ident_is(ex, tok_at(ex, pb, k), kw):
+                k += 1
+        if ident_is(ex, tok_at(ex, pb, k), 'extern'):
+            k += 1
+            t = tok_at(ex, pb, k)
+            if t != END and tk_lit(ex, t) is not None:
+                k += 1
+        if ident_is(ex, tok_at(ex, pb, k), 'fn'):
+            pb.pos += k + 1
+            nm = ident_name(ex, tok_at(ex, pb))
+            if nm is None:
+                return ('unspecified', 'fn without a name')
+            pb.pos += 1
+            t = tok_at(ex, pb)
+            if t == END or tk_group_delim(ex, t) != '(':
+                return ('unspecified', 'fn without a parameter list')
+            pb.pos += 1
+            if punct_is(ex, tok_at(ex, pb), '->'):
+                if ident_name(ex, tok_at(ex, pb, 1)) is None:
+                    return ('unspecified', 'missing return type')
+                pb.pos += 2
+            t = tok_at(ex, pb)
+            if punct_is(ex, t, ';'):
+                pb.pos += 1
+                items.append(('other', None, start, pb.pos))     # body-less declaration: never a method
+                continue
+            if t == END or tk_group_delim(ex, t) != '{':
+                return ('unspecified', 'fn without a body')
+            pb.pos += 1
+            items.append(('fn' if (vis or not pub_only) else 'other', nm, start, pb.pos))
+            continue
+        pb.pos = save
+        # the other item kinds of the alphabet
+        t = tok_at(ex, pb)
+        if ident_is(ex, t, 'struct') or ident_is(ex, t, 'use'):
+            if ident_name(ex, tok_at(ex, pb, 1)) is None or not punct_is(ex, tok_at(ex, pb, 2), ';'):
+                return ('unspecified', 'struct/use item shape')
+            pb.pos += 3
+        elif ident_is(ex, t, 'mod') or ident_is(ex, t, 'trait') or ident_is(ex, t, 'impl'):
+            t2 = tok_at(ex, pb, 2)
+            if ident_name(ex, tok_at(ex, pb, 1)) is None or t2 == END or tk_group_delim(ex, t2) != '{':
+                return ('unspecified', 'mod/trait/impl item shape')
+            pb.pos += 3
+        elif ident_is(ex, t, 'extern'):
+            t1, t2 = tok_at(ex, pb, 1), tok_at(ex, pb, 2)
+            if t1 == END or tk_lit(ex, t1) is None or t2 == END or tk_group_delim(ex, t2) != '{':
+                return ('unspecified', 'extern block shape')
+            pb.pos += 3
+        elif ident_name(ex, t) is not None and punct_is(ex, tok_at(ex, pb, 1), '!'):
+            t2 = tok_at(ex, pb, 2)
+            if t2 == END or tk_group_delim(ex, t2) != '{':
+                return ('unspecified', 'macro invocation shape')
+            pb.pos += 3
+        else:
+            return ('unspecified', 'not an item of the alphabet')
+        items.append(('other', None, start, pb.pos))
+    return ('ok', items)
+
+
+def scan_to_brace_or_semi(ex, pb):
+    while True:
+        t = tok_at(ex, pb)
+        if t == END:
+            return ('err', 'item without a body or terminating `;`')
+        pb.pos += 1
+        if tk_group_delim(ex, t) == '{' or tk_punct(ex, t) == ';':
+            break
+    while tok_at(ex, pb) != END and tk_punct(ex, tok_at(ex, pb)) == ';':
+        pb.pos += 1
+    return None
